@@ -4,6 +4,7 @@ import (
 	"bytes"
 	"fmt"
 	"sort"
+	"strings"
 	"testing"
 
 	"github.com/openziti/storage/ast"
@@ -41,7 +42,9 @@ var c14Kinds = []string{"bolt", "open-seekable", "open-cursor", "iterate-string-
 // kinds that only go forward
 var c14ForwardOnly = map[string]bool{"open-seekable": true, "iterate-string-list": true, "link-iterate": true, "set-symbol-runtime": true, "iterate-ids": true, "iterate-valid-ids": true, "filtered": true, "empty": true}
 
-var c14Universe = [][]byte{{}, []byte("a"), []byte("a\x00"), []byte("ab"), []byte("b"), {0xff}, {0xff, 0xff}, []byte("a\xff"), {0x05}, {0x07, 'x'}, []byte("B")}
+var c14Universe = [][]byte{{}, []byte("a"), []byte("a\x00"), []byte("ab"), []byte("b"), {0xff}, {0xff, 0xff}, []byte("a\xff"), {0x05}, {0x07, 'x'}, []byte("B"),
+	// long elements that differ only after a common prefix of 63 / 64 / 130 bytes
+	[]byte(strings.Repeat("L", 63) + "1"), []byte(strings.Repeat("L", 63) + "2"), []byte(strings.Repeat("L", 64)), []byte(strings.Repeat("L", 130) + "a"), []byte(strings.Repeat("L", 130) + "b")}
 
 func genElems(t *rapid.T, l string, allowEmpty bool) [][]byte {
 	n := rapid.IntRange(0, 8).Draw(t, l+"_n")
@@ -163,7 +166,17 @@ func typedKey(s string) []byte { return boltz.PrependFieldType(boltz.TypeString,
 // buildCursor prepares the database content for the case and returns a constructor for fresh cursors plus the
 // expected enumeration (in the order the cursor must produce it).
 func buildCursor(c c14Case, db *bbolt.DB) (open func(tx *bbolt.Tx) ast.SetCursor, expect []string, err error) {
+	open, _, expect, err = buildCursor2(c, db)
+	return
+}
+
+// buildCursor2 additionally returns, for the set-symbol-runtime kind, a constructor for a cursor of the same set
+// symbol (looked up again on the same store) on another row.
+func buildCursor2(c c14Case, db *bbolt.DB) (open, second func(tx *bbolt.Tx) ast.SetCursor, expect []string, err error) {
 	s := c14BuildStores()
+	second = func(tx *bbolt.Tx) ast.SetCursor {
+		return s.as.GetSymbol("roles").(boltz.RuntimeEntitySetSymbol).OpenCursor(tx, []byte("a2"))
+	}
 	asc := dedupSorted(c.Elems)
 	expect = asc
 	if c.Reverse {
@@ -242,6 +255,18 @@ func buildCursor(c c14Case, db *bbolt.DB) (open func(tx *bbolt.Tx) ast.SetCursor
 		open = func(tx *bbolt.Tx) ast.SetCursor { return s.rolesIdx.OpenKeyCursor(tx, fwd) }
 	case "set-symbol-runtime":
 		err = put(true, "root", "as", "a1", "roles")
+		if err == nil {
+			// a second row with a set of its own, for the interleaved cursor of step 2
+			err = db.Update(func(tx *bbolt.Tx) error {
+				b := boltz.GetOrCreatePath(tx, "root", "as", "a2", "roles")
+				for _, e := range []string{"other1", "other2", "other3"} {
+					if err := b.Put(typedKey(e), nil); err != nil {
+						return err
+					}
+				}
+				return b.GetError()
+			})
+		}
 		open = func(tx *bbolt.Tx) ast.SetCursor {
 			rt := s.as.GetSymbol("roles").(boltz.RuntimeEntitySetSymbol)
 			return rt.OpenCursor(tx, []byte("a1"))
@@ -381,7 +406,7 @@ func runC14(c c14Case) kit.Result {
 	res := kit.Result{Classes: []string{"kind:" + c.Kind, fmt.Sprintf("reverse:%v", c.Reverse)}}
 	db := kit.NewRawDB()
 	defer db.Close()
-	open, expect, err := buildCursor(c, db.DB)
+	open, second, expect, err := buildCursor2(c, db.DB)
 	if err != nil {
 		res.Err = fmt.Errorf("harness: preparing the set: %v", err)
 		return res
@@ -417,7 +442,21 @@ func runC14(c c14Case) kit.Result {
 		seeker, seekable := cur.(ast.SeekableSetCursor)
 		typeSeeker, typeSeekable := cur.(ast.TypeSeekableSetCursor)
 		var trace []string
-		for _, st := range c.Steps {
+		for si, st := range c.Steps {
+			if c.Kind == "set-symbol-runtime" && si%2 == 1 {
+				// while this cursor is open, the same set symbol is looked up again and iterated on another row (what a
+				// nested scan over the same store does); the open cursor must not notice
+				other := second(tx)
+				var og []string
+				for n := 0; other.IsValid() && n < 10; n++ {
+					og = append(og, string(other.Current()))
+					other.Next()
+				}
+				if fmt.Sprint(og) != "[other1 other2 other3]" {
+					return fmt.Errorf("%s: a second cursor of the same set symbol on row a2 enumerated %q", label, og)
+				}
+				trace = append(trace, "(second cursor on another row drained)")
+			}
 			if st.Seek {
 				if !seekable {
 					continue
